@@ -19,6 +19,7 @@ import (
 	"bytes"
 	"fmt"
 	"net/textproto"
+	"runtime"
 	"sort"
 	"strconv"
 	"strings"
@@ -210,8 +211,8 @@ func c38GenReq(rt *rapid.T, idx int) *c38Req {
 		total += sizes[i]
 	}
 	headerPhase(rapid.IntRange(0, 5).Draw(rt, "nHeaders"), true)
-	switch rapid.IntRange(0, 5).Draw(rt, "clKind") {
-	case 0:
+	switch rapid.IntRange(0, 6).Draw(rt, "clKind") {
+	case 0, 2:
 		add(hop{Kind: opSetHeader, K: "Content-Length", V: strconv.Itoa(total)}, fmt.Sprintf("Set(Content-Length,%d) [right]", total))
 		m.hdr["Content-Length"] = []string{strconv.Itoa(total)}
 	case 1:
@@ -344,7 +345,16 @@ func multiset(fs []kv) map[kv]int {
 }
 
 func c38Run(rt *rapid.T, rec *ev.Rec) {
-	nReq := rapid.IntRange(1, 3).Draw(rt, "nReq")
+	nReq := rapid.IntRange(1, 5).Draw(rt, "nReq")
+	// Part of the cases run on a single P: sync.Pool then hands the state object released by
+	// one response to the very next request, so state that leaks between responses through
+	// bfe's pools (responseWriterState, writeData, buffers) becomes visible deterministically.
+	singleP := rapid.IntRange(0, 2).Draw(rt, "singleP") == 0
+	// concurrent: all requests are sent before the first response is awaited
+	concurrent := nReq > 1 && rapid.IntRange(0, 3).Draw(rt, "concurrent") == 0
+	if singleP {
+		defer runtime.GOMAXPROCS(runtime.GOMAXPROCS(1))
+	}
 	reqs := make([]*c38Req, nReq)
 	var trace []string
 	for i := range reqs {
@@ -364,18 +374,46 @@ func c38Run(rt *rapid.T, rec *ev.Rec) {
 	}
 	inconclusive := ""
 	stop := false
+	hs := make([]*hctl, nReq)
+	send := func(i int) bool {
+		path := fmt.Sprintf("/r%d", i)
+		hs[i] = r.expectHandler(path, append([]hop{}, reqs[i].ops...))
+		if r.writeHeaders(uint32(2*i+1), reqFields(reqs[i].method, path), true) != nil {
+			rec.Fail(rt, "conn-closed-unexpectedly", w(), "connection ended before request %d", i)
+			return false
+		}
+		return true
+	}
+	if concurrent {
+		trace = append(trace, "all requests sent before the first response is awaited")
+		for i := range reqs {
+			if !send(i) {
+				return
+			}
+		}
+	}
+	if singleP {
+		trace = append(trace, "GOMAXPROCS(1)")
+	}
 	for i, q := range reqs {
 		if inconclusive != "" || stop {
 			break
 		}
 		id := uint32(2*i + 1)
 		classes := map[string]bool{}
-		path := fmt.Sprintf("/r%d", i)
-		h := r.expectHandler(path, append([]hop{}, q.ops...))
-		if r.writeHeaders(id, reqFields(q.method, path), true) != nil {
-			rec.Fail(rt, "conn-closed-unexpectedly", w(), "connection ended before request %d", i)
+		if concurrent {
+			classes["concurrent-requests"] = true
+		}
+		if singleP {
+			classes["single-P"] = true
+		}
+		if i > 0 {
+			classes["follows-another-response"] = true
+		}
+		if !concurrent && !send(i) {
 			return
 		}
+		h := hs[i]
 		if !r.waitStarted(h) || !r.waitExited(h) {
 			inconclusive = "watchdog"
 			break
@@ -431,10 +469,36 @@ func c38Run(rt *rapid.T, rec *ev.Rec) {
 		// ---- expectations
 		bodyless := q.method == "HEAD" || c38Bodyless(m.status)
 		var wantBody []byte
-		for _, oi := range q.writes {
-			if oi < len(res) {
-				wantBody = append(wantBody, q.ops[oi].Data[:res[oi].N]...)
+		// A Write may be refused only for a status without body or once the handler's own
+		// declared Content-Length is exceeded; every other Write must be accepted in full
+		// (the body is then the concatenation of what was accepted).
+		declCL := int64(-1)
+		if v := m.snap["Content-Length"]; len(v) > 0 {
+			if n, err := strconv.ParseInt(v[0], 10, 64); err == nil {
+				declCL = n
+				classes["content-length-declared"] = true
 			}
+		}
+		cum := int64(0)
+		refused := false
+		for _, oi := range q.writes {
+			if oi >= len(res) {
+				continue
+			}
+			l := len(q.ops[oi].Data)
+			cum += int64(l)
+			mayRefuse := c38Bodyless(m.status) || (declCL >= 0 && cum > declCL)
+			if !mayRefuse && (res[oi].N != l || res[oi].Err != "") && !refused {
+				refused = true
+				fail("write-refused", "Write of %d octets (total %d so far, handler declared content-length %d, status %d) returned n=%d err=%q", l, cum, declCL, m.status, res[oi].N, res[oi].Err)
+			}
+			wantBody = append(wantBody, q.ops[oi].Data[:res[oi].N]...)
+		}
+		if refused {
+			continue
+		}
+		if declCL < 0 && cum > 0 {
+			classes["body-without-content-length"] = true
 		}
 		if bodyless {
 			wantBody = nil
